@@ -264,7 +264,8 @@ end
 inductive Clause where
   | f12Panic            -- C16/F12: null arguments + declared default: panic
   | panicked            -- the wrapper panicked
-  | f16                 -- C16/F16: success without structured content although an output schema is declared
+  | f16                 -- C16/F16: success without structured content although an output schema is declared (nil `any` output)
+  | scMissing           -- success_has_structured: the same for any other output of the handler
   | f12NullSeen         -- C16/F12: null arguments: the handler observes null
   | recvExact (p : String) (a b : Dec)    -- handler_receives_exact_integers
   | carryExact (p : String) (a b : Dec)   -- result_carries_exact_integers
@@ -290,6 +291,10 @@ deriving Inhabited
 
 def isNilPtr : OutVal → Bool
   | .nilPtr => true
+  | _ => false
+
+def isNilAny : OutVal → Bool
+  | .nilAny => true
   | _ => false
 
 /-- The wrapper run over the tool's OWN schemas on exact numbers: what the monitor judges by. -/
@@ -375,7 +380,11 @@ def monitor (d : ToolD) (ci : CallIn) (o : Obs) : Option Clause :=
   let io := obsOf (ideal d ci)
   if o.res == .panic then
     if ci.argsNull && hasDefaults d.isch then some .f12Panic else some .panicked
-  else if d.osch.isSome && o.res == .ok && o.sc.isNone then some .f16
+  else if d.osch.isSome && o.res == .ok && o.sc.isNone then
+    -- the F16 shape (Out = any, nil output, the schema never consulted) keeps its own text; any other
+    -- output of the handler that arrives without structured content — whatever the protocol version of
+    -- the session, whatever the JSON kind of the output — is the general clause
+    if isNilAny (ci.h .null).out then some .f16 else some .scMissing
   else if sameObs o io then none
   else
     match monDiag d ci o with
@@ -392,6 +401,9 @@ def libIn (d : ToolD) (ci : CallIn) : Option Bool :=
 
 /-- the model observation of a call: the repaired wrapper over the schemas the tool enforces -/
 def modelCall (d : ToolD) (ci : CallIn) : Outcome := call (refEnv lossy64) d.enforced ci.h ci.args
+
+/-- … as it reaches a peer whose session runs at protocol version `v` (`serveAt`: wrapper, then dispatcher) -/
+def modelServe (v : String) (d : ToolD) (ci : CallIn) : Delivered := serveAt v (refEnv lossy64) d.enforced ci.h ci.args
 
 /-- the reference validator's verdict on the (exact) output in the form `applySchema` validates -/
 def libOut (d : ToolD) (ci : CallIn) : Option Bool :=
@@ -506,12 +518,15 @@ structure MState where
   /-- Go types and OWN schemas (`Decl.ownIn`/`Decl.ownOut`) of the current server's tools -/
   tys : List (String × GoTy × GoTy × Schema × Option Schema) := []
   last : Option String := none
+  /-- the protocol version the current server's session runs at (before any `server` op: the pair the
+  harness makes on demand, the SDK client left alone) -/
+  ver : String := Generated.TypedTool.latestProtocolVersion
 
 /-- `server` steps do not consult the environment -/
 def refReg : RegEnv String Schema := { derive := fun _ => objectSchema, resolves := defaultsValid, objectSchema := objectSchema }
 
-def MState.server (n : Nat) (d : MState) : MState :=
-  { world := d.world.step refReg (.server (if n == 0 then none else some n)), tys := [], last := none }
+def MState.server (n : Nat) (v : String) (d : MState) : MState :=
+  { world := d.world.step refReg (.server (if n == 0 then none else some n)), tys := [], last := none, ver := v }
 
 /-- what the model says of a `tool` op -/
 inductive ToolOut where
@@ -600,13 +615,13 @@ def mkCall (d : ToolD) (c : CallEv) : Option CallIn :=
 /-- a record: the op and what the implementation was observed to do -/
 inductive Rec where
   | reset
-  | server (n : Nat)
+  | server (n : Nat) (v : String)
   | tool (t : ToolEv) (o : ToolObs)
   | call (name : Option String) (c : CallEv) (o : Obs) (lib olib : Option Bool)
 
 def mstep (d : MState) : Rec → MState × Option Clause
   | .reset => ({}, none)
-  | .server n => (d.server n, none)
+  | .server n v => (d.server n v, none)
   | .tool t o =>
     match d.regTool t o with
     | (d', .expected v) => (d', v)
